@@ -14,7 +14,7 @@ import (
 // Laws on the calculated document alone (no reference implementation).
 
 func H_C03_Readd() {
-	o := skOpts{rule: tax.RoundingRuleCurrency, cur: skCurrency(), lines: skLines(), fixedAtCur: true, rich: true, include: true}
+	o := skOpts{rule: tax.RoundingRuleCurrency, cur: "EUR", lines: skLines(), fixedAtCur: true, rich: true, include: true}
 	inv := skInvoice(o)
 	c03Check(inv, o.cur.Def().Subunits)
 }
